@@ -20,7 +20,7 @@ import os
 from common import *  # noqa
 
 PROP = "C15"
-TABLES = []
+TABLES = ["Whitespace"]
 MODELS = [("c15", "Extract/ExC15.v", "run_C15")]
 
 LNAMES = {1: "Insert", 2: "DeleteBefore", 3: "MoveCursor", 4: "CompleteNext", 5: "CompletePrev", 6: "Cancel",
@@ -44,6 +44,8 @@ def label_str(l):
         return "SetText(%r)" % unS(l[1])
     if k == 20:
         return "Reset(%r,%d)" % (unS(l[1]), l[2])
+    if k == 19:
+        return "HistoryLines(%r,%r)" % ([unS(x) for x in l[1]], [unS(x) for x in l[2]])
     return "%s(%s)" % (LNAMES.get(k, "?"), ",".join(str(x) for x in l[1:]))
 
 
@@ -121,7 +123,7 @@ class Rig:
         self.sync_verdict = (True, 0)
         self.keep_text = False
         self.obj_tags = {}       # id(Completion made by the buffer itself) -> (Completion, Call, index)
-        self.effective = None
+        self.hl_args = None
         self.prev_cs = None
         self.reported = set()
 
@@ -203,18 +205,18 @@ class Rig:
             elif k == 7:
                 b.start_completion(select_first=l[1] == 1, select_last=l[1] == 2, insert_common_part=l[1] == 3)
             elif k == 19:
-                # the real start_history_lines_completion; the model is given InstallMenu with the
-                # list the method computed (the list itself is not modelled, its installation is)
+                # the real start_history_lines_completion on working lines before + [text] + after
+                # (the model computes the list itself since round 6: label HistoryLines)
                 call = Call(len(self.ccalls), b.document)
                 self.ccalls.append(call)
-                self.effective = [14, []]
+                set_working_lines(b, [unS(x) for x in l[1]], [unS(x) for x in l[2]])
+                self.hl_args = ([unS(x) for x in l[1]] + [b.text] + [unS(x) for x in l[2]], b.text, b.cursor_position)
                 b.start_history_lines_completion()
                 cs = b.complete_state
                 comps = list(cs.completions) if cs is not None else []
                 call.items = [(c.text, c.start_position) for c in comps]
                 for j, c in enumerate(comps):
                     self.obj_tags[id(c)] = (c, call, j)
-                self.effective = [14, [[S(t), st] for t, st in call.items]]
             elif k == 20:
                 from prompt_toolkit.document import Document
                 b.reset(Document(unS(l[1]), l[2]))
@@ -390,6 +392,96 @@ def dsx(d):
     return [S(d.text), d.cursor_position]
 
 
+def set_working_lines(b, before, after):
+    """harness set-up: the buffer's history window becomes before + [text] + after, working index on the
+    text (what loading the history and history_backward produce; the history itself is C14's subject)"""
+    from collections import deque
+    text = b.text
+    b._working_lines = deque(before + [text] + after)
+    b._Buffer__working_index = len(before)
+    if b.text != text or b.working_index != len(before):
+        raise RuntimeError("Buffer._working_lines / __working_index changed shape")
+
+
+def hl_oracle(wl, text, cur, got):
+    """C15_history_lines_*: the menu start_history_lines_completion shows is computed from the current
+    document: the entries are exactly the stripped non-empty lines of the working lines that start with the
+    left-stripped current line before the cursor, each once, most recent first; each replaces exactly that
+    part.  Python's own str methods are the reference.  -> None or a clause"""
+    if got is None:
+        return "start_history_lines_completion left no complete_state"
+    cl = text[:cur].rpartition("\n")[2].lstrip()
+    want = []
+    for s in wl:
+        for l in s.split("\n"):
+            l = l.strip()
+            if l and l.startswith(cl) and l not in want:
+                want.append(l)
+    texts = [t for t, _ in got]
+    for t, st in got:
+        if st != -len(cl):
+            return "history-lines entry %r has start_position %d, the current line before the cursor is %r" % (t, st, cl)
+        if t not in want:
+            return "history-lines entry %r is not a stripped non-empty line of the working lines starting with %r" % (t, cl)
+    if len(set(texts)) != len(texts):
+        return "history-lines menu lists a line twice: %r" % (texts,)
+    if set(texts) != set(want):
+        return "history-lines menu %r misses %r" % (texts, [w for w in want if w not in texts])
+    if texts != want[::-1]:
+        return "history-lines menu %r is not in most-recent-first order %r" % (texts, want[::-1])
+    return None
+
+
+_META = None
+
+
+def hl_fn_impl(case):
+    """function-level case [19, working_lines, text, cursor, working_index] on a real Buffer -> entries
+    [[text, start_position, [is_current, i + 1, j + 1]]] parsed from display_meta"""
+    import re
+    from collections import deque
+    from prompt_toolkit.buffer import Buffer
+    from prompt_toolkit.document import Document
+    from prompt_toolkit.formatted_text import fragment_list_to_text, to_formatted_text
+    _, wl, text, cur, wi = case
+    Env.get()
+    b = Buffer(document=Document(unS(text), cur))
+    lines = [unS(x) for x in wl]
+    b._working_lines = deque(lines)
+    b._Buffer__working_index = wi
+    if b.text != unS(text) or b.working_index != wi:
+        raise RuntimeError("Buffer._working_lines / __working_index changed shape")
+    b.start_history_lines_completion()
+    cs = b.complete_state
+    out = []
+    for c in (cs.completions if cs is not None else []):
+        meta = fragment_list_to_text(to_formatted_text(c.display_meta))
+        m = re.fullmatch(r"Current, line (\d+)", meta)
+        if m:
+            mt = [1, wi + 1, int(m.group(1))]
+        else:
+            m = re.fullmatch(r"History (\d+), line (\d+)", meta)
+            if not m:
+                raise RuntimeError("display_meta %r of a history-lines completion changed shape" % (meta,))
+            mt = [0, int(m.group(1)), int(m.group(2))]
+        out.append([S(c.text), c.start_position, mt])
+    return out, [(c.text, c.start_position) for c in (cs.completions if cs is not None else [])]
+
+
+def is_fn_case(case):
+    return isinstance(case, list) and len(case) == 5 and case[0] == 19
+
+
+def valid_fn_case(case):
+    try:
+        _, wl, text, cur, wi = case
+        return (all(isinstance(w, list) and all(isinstance(x, int) for x in w) for w in wl) and
+                all(isinstance(x, int) for x in text) and isinstance(cur, int) and 0 <= cur <= len(text) and
+                isinstance(wi, int) and 0 <= wi < len(wl) and wl[wi] == text)
+    except Exception:  # noqa
+        return False
+
+
 def group_shape_ok(g):
     if len(g) == 1:
         return g[0][0] in (1, 2, 3, 4, 5, 6, 7, 9, 14, 15, 16, 17, 18, 19, 20, 21)
@@ -408,7 +500,7 @@ def valid_case(case):
                 return False
             for l in g:
                 k = l[0]
-                arity = {1: 2, 2: 2, 3: 2, 4: 3, 5: 3, 6: 1, 7: 2, 9: 1, 10: 4, 11: 2, 12: 3, 13: 3, 14: 2, 15: 2, 16: 2, 17: 1, 18: 4, 19: 1, 20: 3, 21: 4}[k]
+                arity = {1: 2, 2: 2, 3: 2, 4: 3, 5: 3, 6: 1, 7: 2, 9: 1, 10: 4, 11: 2, 12: 3, 13: 3, 14: 2, 15: 2, 16: 2, 17: 1, 18: 4, 19: 3, 20: 3, 21: 4}[k]
                 if len(l) != arity:
                     return False
                 if k == 7 and not (0 <= l[1] <= 3):
@@ -420,6 +512,8 @@ def valid_case(case):
                 if k == 18 and (l[1] not in (0, 1) or l[3] not in (0, 1) or not isinstance(l[2], int)):
                     return False
                 if k == 16 and not all(isinstance(x, int) for x in l[1]):
+                    return False
+                if k == 19 and not all(isinstance(w, list) and all(isinstance(x, int) for x in w) for w in l[1] + l[2]):
                     return False
                 if k == 20 and not (all(isinstance(x, int) for x in l[1]) and isinstance(l[2], int) and 0 <= l[2] <= len(l[1])):
                     return False
@@ -445,8 +539,6 @@ async def _drive(rig, groups, hook=None):
         v_before = rig.vst_code()
         if len(g) == 1 and g[0][0] != 9:
             status = rig.user(g[0])
-            if g[0][0] == 19:
-                g = [rig.effective]
         else:
             if len(g) == 2:
                 call = rig.resolve(g[1])
@@ -458,6 +550,10 @@ async def _drive(rig, groups, hook=None):
                     vres = call
             await asyncio.sleep(0)
         o = rig.observe(status, vres, v_before)
+        if len(g) == 1 and g[0][0] == 19 and status == 0:
+            cs = rig.b.complete_state
+            o.entry_fail = o.entry_fail or hl_oracle(rig.hl_args[0], rig.hl_args[1], rig.hl_args[2],
+                                                     None if cs is None else [(c.text, c.start_position) for c in cs.completions])
         out.append(o)
         trace.append((g, before, o))
         before = o
@@ -494,6 +590,15 @@ def run_on_impl(case, want_rig=False):
 
 
 def impl_case(case):
+    if is_fn_case(case):
+        if not valid_fn_case(case):
+            return [-999], [], None
+        try:
+            out, got = with_watchdog(lambda: hl_fn_impl(case), 20)
+        except Hang:
+            return [-998], [], None
+        bad = hl_oracle([unS(x) for x in case[1]], unS(case[2]), case[3], got)
+        return out, [], ({"fn_oracle": bad} if bad else None)
     if not valid_case(case):
         return [-999], [], None
     try:
@@ -623,11 +728,13 @@ def alphabet(kind):
     always = lambda i: True  # noqa
     menu = lambda i: i["cs"]  # noqa
     A = []
-    if kind in ("comp", "comp-noH", "all"):
+    if kind in ("comp", "comp-noH", "comp-HL", "all"):
         A += [("I", G_user([1, S("b")]), always), ("D", G_user([2, 1]), always), ("M", G_user([3, 0]), always),
               ("F", G_user([15, 1]), always), ("W", G_user([16, S("xb")]), always),
               ("N", G_user([4, 1, 0]), menu), ("P", G_user([5, 1, 0]), menu), ("X", G_user([6]), menu),
-              ] + ([] if kind == "comp-noH" else [("H", G_user([14, [[S("ab"), -1], [S("ac"), -1]]]), always)]) + [
+              ] + ([] if kind == "comp-noH" else
+                   [("HL", G_user([19, [S("ab"), S(" ac \nb")], [S("abd")]]), always)] if kind == "comp-HL" else
+                   [("H", G_user([14, [[S("ab"), -1], [S("ac"), -1]]]), always)]) + [
               ("T", TICK, lambda i: i["unstarted"] > 0),
               ("Y1", G_sched([10, 0, S("ab"), -1]), lambda i: i["c"] > 0),
               ("Y2", G_sched([10, 0, S("a"), -1]), lambda i: i["c"] > 0),
@@ -667,6 +774,39 @@ RCOMPS = [("ab", -1), ("a", -1), ("abc", -1), ("x", 0), ("", 0), ("b", -1), ("ab
           ("bc", -1), ("bd", -1)]
 
 
+HL_LINES = ["ab", "a", " ab ", "abc\nab\n  abd", "b", "", "a b", "\tab\x0b", "ab\u3000\n\x1fa", "\u200bab", "x\nab \n ab", "ABC\nab"]
+
+
+def hl_fn_exhaustive(maxlen):
+    """every text over {a, b, space, newline} up to maxlen x every cursor x a set of history windows"""
+    windows = [([], []), (["a"], []), (["ab", " a b "], []), (["a\nab\n  ab  ", "b"], ["ba\n b"]), ([], ["ab", "ab "]),
+               (["\tab\x0b", "a\u3000", "\u200ba"], []), (["b", "bb", "b b", " b"], ["bb"]), (["", "\n\n", " \n "], [""])]
+    out = []
+    for n in range(maxlen + 1):
+        for tup in itertools.product("ab \n", repeat=n):
+            t = "".join(tup)
+            for cur in range(n + 1):
+                for before, after in windows:
+                    out.append([19, [S(x) for x in before] + [S(t)] + [S(x) for x in after], S(t), cur, len(before)])
+    return out
+
+
+def hl_fn_random(rng, n):
+    """random windows and texts with every kind of white space str.isspace() knows, and near misses"""
+    spaces = [chr(c) for c in range(0x3100) if chr(c).isspace()]
+    near = ["\x00", "\x08", "\x1b", "\x7f", "\x84", "\x86", "\u200b", "\u2060", "\ufeff", "\u180e", "\u2027", "\u202a"]
+    def word():
+        return "".join(rng.choice(["a", "a", "b", "ab", rng.choice(spaces), rng.choice(spaces + near), "\n", " "])
+                       for _ in range(rng.randint(0, 6)))
+    out = []
+    for _ in range(n):
+        before = [word() for _ in range(rng.randint(0, 3))]
+        after = [word() for _ in range(rng.choice([0, 0, 1, 2]))]
+        t = word()
+        out.append([19, [S(x) for x in before] + [S(t)] + [S(x) for x in after], S(t), rng.randint(0, len(t)), len(before)])
+    return out
+
+
 def random_case(rng, maxlen):
     cfg = [rng.randint(0, 1), rng.choice([0, 1, 1]), rng.randint(0, 1), rng.randint(0, 1), rng.choice([10000, 10000, 1, 2, 3])]
     text = rng.choice(["", "a", "ab", "ab", "a b", "ab\nab", "ab\nabc\n a\nb", "abc\nab\nabd"])
@@ -693,8 +833,10 @@ def random_case(rng, maxlen):
                 l = [15, rng.choice([1, 1, 1, 2, 0, -1, 9])]
             elif k == 16:
                 l = [16, S(rng.choice(["", "a", "ab", "xb", "ba", "a b", "abc", "ab\nab"]))]
-            elif k in (17, 19):
+            elif k == 17:
                 l = [k]
+            elif k == 19:
+                l = [19, [S(x) for x in rng.sample(HL_LINES, rng.randint(0, 3))], [S(x) for x in rng.sample(HL_LINES, rng.choice([0, 0, 1, 2]))]]
             elif k == 18:
                 l = [18, rng.randint(0, 1), rng.choice([0, 1, 1, 5, -2]), rng.randint(0, 1)]
             elif k == 20:
@@ -764,6 +906,10 @@ MALFORMED = [
     [[0, 0, 0, 0, 10000], S("a"), 1, [[[14]]]],
     [[0, 0, 0, 0, 10000, 0], S("a"), 1, []],                             # a sixth configuration field
     [[0, 0, 0, 10000], S("a"), 1, []],                                   # the four-field configuration of earlier rounds
+    [[0, 0, 0, 0, 10000], S("a"), 1, [[[19]]]],                             # HistoryLines without its working lines (rounds 3-5 shape)
+    [19, [S("a"), S("b")], S("a"), 1, 1],                                   # working_lines[working_index] is not the text
+    [19, [S("a")], S("a"), 2, 0],                                           # cursor beyond the text
+    [19, [S("a")], S("a"), 1, 1],                                           # working index outside
 ]
 
 
@@ -776,9 +922,9 @@ def gen_batches(chk):
         ("comp/start(common),mixed", [0, 0, 0, 0, 10000], "ab", 1, "comp",
          [("S3", G_user([7, 3]), yes), ("Y3", G_sched([10, 0, S("Ab"), -1]), lambda i: i["c"] > 0)], 6 if thorough else 5),
         ("comp/start(plain)", [0, 0, 0, 0, 10000], "ab", 1, "comp", [("S0", G_user([7, 0]), yes)], 5 if thorough else 4),
-        ("comp/start(first)", [0, 0, 0, 0, 10000], "ab", 1, "comp", [("S1", G_user([7, 1]), yes)], 5 if thorough else 4),
+        ("comp/start(first),history-lines", [0, 0, 0, 0, 10000], "ab", 1, "comp-HL", [("S1", G_user([7, 1]), yes)], 5 if thorough else 4),
         ("comp/start(last),max=2", [0, 0, 0, 0, 2], "ab", 1, "comp", [("S2", G_user([7, 2]), yes)], 5 if thorough else 4),
-        ("comp/while-typing", [1, 0, 0, 0, 10000], "ab", 1, "comp", [("S3", G_user([7, 3]), yes)], 5 if thorough else 4),
+        ("comp/while-typing,history-lines", [1, 0, 0, 0, 10000], "ab", 1, "comp-HL", [("S3", G_user([7, 3]), yes)], 5 if thorough else 4),
         ("validate+suggest+accept", [0, 1, 1, 1, 10000], "ab", 1, "val", [], 5 if thorough else 4),
         ("validator, not while typing", [0, 1, 0, 0, 10000], "ab", 1, "val", [], 5 if thorough else 4),
         ("everything", [1, 1, 1, 1, 10000], "ab", 1, "all", [("S1", G_user([7, 1]), yes)], 4 if thorough else 3),
@@ -792,6 +938,8 @@ def gen_batches(chk):
         if budget[1]:
             chk.note("exhaustive family %s cut at the budget of %d schedules" % (name, budget[0]))
         yield "exhaustive:%s:depth%d" % (name, depth), out
+    yield "history-lines(fn):exhaustive<=%d" % (4 if thorough else 3), hl_fn_exhaustive(4 if thorough else 3)
+    yield "history-lines(fn):random", hl_fn_random(rng, 20000 if thorough else 2500)
     nrand = 30000 if thorough else 3000
     yield "random", [random_case(rng, 40 if thorough else 24) for _ in range(nrand)]
 
@@ -807,6 +955,8 @@ def first_violation(trace):
 
 
 def tagger(c, a, m):
+    if is_fn_case(c):
+        return {"at": "HistoryLines", "field": "computed-list"}
     if not isinstance(m, list) or not isinstance(a, list):
         return {"at": "?"}
     for j, (x, y) in enumerate(zip(a, m)):
@@ -821,7 +971,20 @@ def tagger(c, a, m):
     return {"at": "length"}
 
 
+def describe_fn(c, a):
+    try:
+        return "start_history_lines_completion on working_lines=%r (index %d) text=%r cursor=%d -> %r" % (
+            [unS(x) for x in c[1]], c[4], unS(c[2]), c[3], [(unS(e[0]), e[1], e[2]) for e in a])
+    except Exception:  # noqa
+        return "case=%r impl=%r" % (c, a)
+
+
 def describe(c, a, m):
+    if is_fn_case(c):
+        try:
+            return describe_fn(c, a) + " ; model %r" % ([(unS(e[0]), e[1], e[2]) for e in m],)
+        except Exception:  # noqa
+            return "case=%r impl=%r model=%r" % (c, a, m)
     if not isinstance(m, list) or not isinstance(a, list) or not valid_case(c):
         return "case=%r impl=%r model=%r" % (c, a, m)
     for j, (x, y) in enumerate(zip(a, m)):
@@ -847,8 +1010,20 @@ def main(tier):
         impl_results = []
         oracle_bad = set()
         for i, c in enumerate(cases):
-            out, trace, _ = impl_case(c)
+            out, trace, extra = impl_case(c)
             impl_results.append(out)
+            if is_fn_case(c):
+                chk.count_case(c, bool(out) and out not in ([-999], [-998]))
+                lcount["HistoryLines(fn)"] = lcount.get("HistoryLines(fn)", 0) + 1
+                if extra and extra.get("fn_oracle"):
+                    oracle_bad.add(i)
+                    chk.violation("oracle", "%s  [%s]" % (extra["fn_oracle"], describe_fn(c, out)),
+                                  {"family": "history-lines-list", "at": "HistoryLines"},
+                                  {"case": c, "clause": extra["fn_oracle"],
+                                   "how": "harness/c15.py hl_fn_impl: real Buffer, _working_lines set, start_history_lines_completion()"})
+                if i % 1999 == 1:
+                    chk.sample({"batch": bname, "fn": describe_fn(c, out)}, limit=12)
+                continue
             if trace:
                 c = cases[i] = [c[0], c[1], c[2], [g for g, _, _ in trace]]
             if out == [-998]:
@@ -918,11 +1093,19 @@ def main(tier):
         "completions with the document each was computed from, index), validation_state + source document, suggestion + source "
         "document, the three `running` closure flags and the in-flight calls. Exhaustive: every schedule of the listed depth per "
         "family in which each scheduler label is enabled; plus cycle schedules, the refutation witness, random schedules, malformed cases. "
+        "Round 6: start_history_lines_completion is a model label (HistoryLines before after: the model computes the list from the "
+        "working lines before + [text] + after, white space from the regenerated str.isspace table) inside the schedules, and a "
+        "function-level family (working lines, text, cursor, working index -> completions with start_position and display_meta) "
+        "exhaustive over texts <= 3/4 characters of {a, b, space, newline} x every cursor x 8 history windows plus random windows "
+        "with every str.isspace character and near misses. "
         "non-trivial = some step changed the observed state; distinct by hash of the whole case")
     chk.assumptions += [
-        "code between two awaits runs atomically (asyncio single-threaded semantics); thread executors (ThreadedCompleter etc.) are outside the model",
+        "code between two awaits runs atomically (asyncio single-threaded semantics); thread executors (ThreadedCompleter etc.) are outside the model (their hand-off is the det_run / dc_run hypothesis of C15_threaded_values / C15_threaded_completions)",
         "refresh_while_loading, on_* event handlers, invalidate() and the 0.3 s refresh timer are not modelled (they do not write the observed attributes)",
         "the real loop starts created tasks FIFO, all at the next iteration; the theorems also cover any other start order (StartTask i), which is not replayed",
+        "the history window start_history_lines_completion reads is set by the harness on the real Buffer (_working_lines / working index) "
+        "right before the call: how history loading and navigation fill it is C14's subject, the model takes it as an argument of the label",
+        "C15_threaded_completions assumes the completer's items are a function of the document of the call (dc_run); the real-thread stream checks that on ThreadedCompleter",
         "history navigation, undo, selection and the Buffer methods not named in Model/C15_Async.v's label type are outside the label alphabet "
         "(synchronous validate(), validate_and_handle and reset() are inside: labels Validate, ValidateAndHandle, Reset)",
     ]
@@ -944,6 +1127,14 @@ def replay(data):
         print("200 fresh threaded scenarios: oracle ok")
         return 0
     case = rep["case"]
+    if is_fn_case(case):
+        out, _, extra = impl_case(case)
+        print(describe_fn(case, out))
+        bad = extra and extra.get("fn_oracle")
+        print("ORACLE FAILS: " + bad if bad else "oracle ok")
+        m = run_model("c15", [case])[0]
+        print("model agrees" if m == sx_norm(out) else "model differs: %r" % (m,))
+        return 1 if bad else 0
     if not valid_case(case):
         print("malformed case: implementation not run; model answers", run_model("c15", [case])[0])
         return 0
